@@ -295,6 +295,67 @@ def param_stream(sh, backend, n, mech_fn, tag="param"):
       G.unload(mod)
 
 
+def gen_ifc_design(rng):
+  """source of a hierarchy with multi-dimensional arrays of interfaces (whose ports may be arrays themselves) and of
+  sub-components; every element is used with its own constant so that any index permutation changes an output"""
+  import itertools
+  w = rng.choice([4, 8, 16])
+  idims = rng.choice([[2], [3], [2, 3], [3, 2], [2, 2], [1, 3]])
+  pdim = rng.choice([0, 0, 2, 3])                    # the interface's msg port is itself an array of pdim elements
+  cdims = rng.choice([[], [], [2], [2, 2], [1, 3], [3, 1]])
+  def nest(txt, dims):
+    for n in reversed(dims): txt = f"[{txt} for _ in range({n})]"
+    return txt
+  def idxs(dims): return list(itertools.product(*[range(n) for n in dims]))
+  def sub(ix): return "".join(f"[{i}]" for i in ix)
+  L = ["from pymtl3 import *", "class XIfc(Interface):", "  def construct(s, T):",
+       f"    s.msg = {nest('InPort(T)', [pdim] if pdim else [])}", "    s.val = OutPort(T)"]
+  L += ["class XLeaf(Component):", "  def construct(s, T, K):", f"    s.ifc = {nest('XIfc(T)', idims)}", "    @update", "    def up():"]
+  n = 0
+  for ix in idxs(idims):
+    n += 1
+    if pdim:
+      terms = " + ".join(f"(s.ifc{sub(ix)}.msg[{k}] ^ {(n * 7 + k * 3) % (1 << w)})" for k in range(pdim))
+    else:
+      terms = f"(s.ifc{sub(ix)}.msg ^ {(n * 7) % (1 << w)})"
+    L.append(f"      s.ifc{sub(ix)}.val @= {terms} + K")
+  L += ["class XTop(Component):", "  def construct(s):", f"    T = mk_bits({w})", f"    s.ifc = {nest('XIfc(T)', idims)}"]
+  if cdims:
+    L.append("    s.leaf = " + nest("XLeaf(T, 1)", cdims).replace("XLeaf(T, 1)", "XLeaf(T, 1)"))
+    L.append(f"    s.aux = {nest('OutPort(T)', cdims + idims)}")
+  else:
+    L.append("    s.leaf = XLeaf(T, 2)")
+  first = True
+  for cx in (idxs(cdims) if cdims else [()]):
+    for ix in idxs(idims):
+      leaf = f"s.leaf{sub(cx)}.ifc{sub(ix)}"
+      for k in (range(pdim) if pdim else [None]):
+        ps = "" if k is None else f"[{k}]"
+        L.append(f"    {leaf}.msg{ps} //= s.ifc{sub(ix)}.msg{ps}")
+      if first:
+        L.append(f"    s.ifc{sub(ix)}.val //= {leaf}.val")
+      if cdims:
+        L.append(f"    s.aux{sub(cx)}{sub(ix)} //= {leaf}.val")
+    first = False
+  return "\n".join(L) + "\n"
+
+
+def ifc_stream(sh, backend, n, mech_fn, tag="ifc"):
+  for case in range(n):
+    rng = sh.rng(tag, case)
+    src = gen_ifc_design(rng)
+    mod = G.load_source(src, "ifc")
+    try:
+      top = mod.XTop(); top.elaborate()
+      judge_text(sh, backend, top, tag, src, (tag, case), mech_fn, ncyc=6, rng=rng, count_key="ifc_array_designs_cosimulated")
+      if case < 1 and sh.idx == 0:
+        sh.sample({"interface_array_source": src[:1500]})
+    except Exception as e:
+      sh.inconclusive("ifc-stream-harness:" + type(e).__name__); sh.sample({"exc": traceback.format_exc()[-600:]})
+    finally:
+      G.unload(mod)
+
+
 def selfcheck(sh):
   n, bad = svselfcheck.run_lrm()
   sh.count("svsim_lrm_examples_ok", n - len(bad))
